@@ -288,8 +288,10 @@ def _decide_path(h, dec, eng, out, res, rng, nvalidate, replay_dir, prop):
             if eng.tie_free:
                 s.push()
                 s.add(*[_to_z3_bool(c) for c in eng.tie_free])
+                s.set("timeout", min(SOLVER_TIMEOUT_MS, 30000))   # a preference, not a verdict: short budget
                 if _check(s, res) == z3.sat:
                     m = s.model()
+                s.set("timeout", SOLVER_TIMEOUT_MS)
                 s.pop()
             _replay(h, eng, m, viol, res, replay_dir, prop, dec)
         s.pop()
